@@ -11,6 +11,7 @@
 #define _GNU_SOURCE
 #include "vpeer.h"
 #include "vs.h"
+#include <pthread.h>
 #include <stdlib.h>
 #include <string.h>
 #include <unistd.h>
@@ -873,6 +874,159 @@ run_resp(void *arg)
 static long   g_exec;
 static double g_wall;
 
+// ---- schedules: a new survey racing with a response / a receive -----------------------------------------
+// (a) the response to survey N is being processed by the library while another thread sends survey N+1 on
+//     the same socket: once N+1 has been sent, nothing that answers N may be delivered.
+// (b) an abandoned survey with a long deadline, then a shorter SURVEYTIME: a receive entered while the new
+//     survey is being sent gets NNG_ESTATE (it came first) or the NEW deadline - a response that arrives
+//     after the new deadline is never delivered.
+static nng_socket sr_sock;
+static int        sr_rv_send, sr_rv_recv;
+static char       sr_got[8];
+static int64_t    sr_t_recv_done;
+static void *
+sr_sender(void *a)
+{
+	(void) a;
+	nng_msg *m;
+	if (nng_msg_alloc(&m, 0) != 0 || nng_msg_append(m, "S2", 2) != 0)
+		vs_fail("harness:sr", "msg alloc");
+	sr_rv_send = nng_sendmsg(sr_sock, m, 0);
+	if (sr_rv_send != 0)
+		nng_msg_free(m);
+	return NULL;
+}
+static void *
+sr_receiver(void *a)
+{
+	(void) a;
+	nng_msg *m = NULL;
+	sr_rv_recv = nng_recvmsg(sr_sock, &m, 0);
+	sr_t_recv_done = vs_now();
+	if (sr_rv_recv == 0) {
+		size_t n = nng_msg_len(m) < 7 ? nng_msg_len(m) : 7;
+		memcpy(sr_got, nng_msg_body(m), n);
+		sr_got[n] = 0;
+		nng_msg_free(m);
+	}
+	return NULL;
+}
+static int
+sr_read_survey(int fd, vp_rd *rd, uint8_t id[4], const char *want)
+{
+	const uint8_t *p;
+	size_t         len;
+	if (vp_next_frame(fd, rd, &p, &len) != 1 || len != 4 + strlen(want) ||
+	    memcmp(p + 4, want, strlen(want)) != 0)
+		return -1;
+	memcpy(id, p, 4);
+	return 0;
+}
+static void
+run_survrace(void *arg)
+{
+	int kind = (int) (intptr_t) arg;
+	vh_init(0);
+	VH_OK(nng_surveyor0_open(&sr_sock));
+	VH_OK(nng_socket_set_ms(sr_sock, NNG_OPT_SURVEYOR_SURVEYTIME, kind == 0 ? 1000 : 2000));
+	int fd = vp_connect_raw(sr_sock, SP_RESPONDENT, NULL);
+	if (fd < 0)
+		vs_fail("harness:setup", "raw respondent");
+	vp_rd  *rd = calloc(1, sizeof(*rd));
+	uint8_t id1[4], id2[4];
+	nng_msg *m;
+	VH_OK(nng_msg_alloc(&m, 0));
+	VH_OK(nng_msg_append(m, "S1", 2));
+	VH_OK(nng_sendmsg(sr_sock, m, 0));
+	vs_settle();
+	if (sr_read_survey(fd, rd, id1, "S1") != 0)
+		vs_fail("harness:sr", "survey 1 not on the wire");
+	pthread_t t1, t2;
+	sr_got[0] = 0;
+	if (kind == 0) {
+		vs_window(1);
+		if (vp_send(fd, id1, 4, "R1", 2) != 0) // the response to survey 1 ...
+			vs_fail("harness:peer", "raw write");
+		pthread_create(&t1, NULL, sr_sender, NULL); // ... races with survey 2
+		pthread_join(t1, NULL);
+		vs_settle();
+		vs_window(0);
+		if (sr_rv_send != 0)
+			vs_fail("C07:send", "survey 2: %s", nng_strerror(sr_rv_send));
+		vs_nontrivial();
+		if (nng_recvmsg(sr_sock, &m, NNG_FLAG_NONBLOCK) == 0) {
+			char b[8] = "";
+			memcpy(b, nng_msg_body(m), nng_msg_len(m) < 7 ? nng_msg_len(m) : 7);
+			nng_msg_free(m);
+			vs_fail("C07:stale-delivered",
+			    "survey 2 had been sent, nobody answered it yet; the receive delivered "
+			    "\"%s\" (the response to survey 1, which the new survey supersedes)",
+			    b);
+		}
+		// and survey 2 is answerable
+		if (sr_read_survey(fd, rd, id2, "S2") != 0)
+			vs_fail("C07:send", "survey 2 not on the wire");
+		if (vp_send(fd, id2, 4, "R2", 2) != 0)
+			vs_fail("harness:peer", "raw write");
+		vs_settle();
+		if (nng_recvmsg(sr_sock, &m, NNG_FLAG_NONBLOCK) != 0)
+			vs_fail("C07:lost", "response to the current survey not delivered");
+		if (nng_msg_len(m) != 2 || memcmp(nng_msg_body(m), "R2", 2) != 0)
+			vs_fail("C07:stale-delivered", "receive after survey 2 delivered '%.2s'",
+			    (char *) nng_msg_body(m));
+		nng_msg_free(m);
+		vs_outcome("superseded ok");
+	} else {
+		// abandon survey 1: a short receive timeout
+		VH_OK(nng_socket_set_ms(sr_sock, NNG_OPT_RECVTIMEO, 5));
+		if (nng_recvmsg(sr_sock, &m, 0) == 0)
+			nng_msg_free(m);
+		VH_OK(nng_socket_set_ms(sr_sock, NNG_OPT_RECVTIMEO, NNG_DURATION_INFINITE));
+		VH_OK(nng_socket_set_ms(sr_sock, NNG_OPT_SURVEYOR_SURVEYTIME, 50));
+		int64_t t0 = vs_now();
+		vs_window(1);
+		pthread_create(&t2, NULL, sr_receiver, NULL);
+		pthread_create(&t1, NULL, sr_sender, NULL);
+		pthread_join(t1, NULL);
+		vs_window(0);
+		if (sr_rv_send != 0)
+			vs_fail("C07:send", "survey 2: %s", nng_strerror(sr_rv_send));
+		vs_settle();
+		if (sr_read_survey(fd, rd, id2, "S2") != 0)
+			vs_fail("C07:send", "survey 2 not on the wire");
+		vs_sleep(150); // the respondent answers late: 150 ms > SURVEYTIME 50
+		if (vp_send(fd, id2, 4, "R2", 2) != 0)
+			vs_fail("harness:peer", "raw write");
+		vs_settle();
+		vs_sleep(10);
+		// the receive must be over by now: ESTATE (it preceded the survey), or timed out
+		// at the new deadline
+		nng_socket_set_ms(sr_sock, NNG_OPT_RECVTIMEO, 1);
+		vs_settle();
+		vs_sleep(3000);
+		pthread_join(t2, NULL);
+		vs_nontrivial();
+		if (sr_rv_recv == 0)
+			vs_fail("C07:late-delivered",
+			    "SURVEYTIME 50 ms: the response sent 150 ms after the survey was delivered "
+			    "(\"%s\") %lld ms after the survey",
+			    sr_got, (long long) (sr_t_recv_done - t0));
+		if (sr_rv_recv == NNG_ETIMEDOUT && sr_t_recv_done - t0 > 50 + 5)
+			vs_fail("C07:deadline",
+			    "SURVEYTIME 50 ms: the receive entered while the survey was sent timed out "
+			    "only %lld ms after the survey",
+			    (long long) (sr_t_recv_done - t0));
+		if (sr_rv_recv != NNG_ETIMEDOUT && sr_rv_recv != NNG_ESTATE)
+			vs_fail("C07:recv-result", "receive racing with the survey -> %s",
+			    nng_strerror(sr_rv_recv));
+		vs_outcome("deadline rv=%d dt=%lld", sr_rv_recv, (long long) (sr_t_recv_done - t0));
+	}
+	close(fd);
+	free(rd);
+	nng_socket_close(sr_sock);
+	vh_fini();
+}
+
 static void
 explore(const char *name, void (*fn)(void *), const int *prefix, int plen,
     int depth)
@@ -988,5 +1142,18 @@ main(int argc, char **argv)
 	    "may stay pending) ctx0|ctx1.send; send via aio and via "
 	    "NNG_FLAG_NONBLOCK",
 	    Q_N);
+	for (int k = 0; k < 2; k++) {
+		vx_cfg c2;
+		memset(&c2, 0, sizeof(c2));
+		c2.prop     = "C07";
+		c2.scenario = k ? "race-recv-new-survey-deadline" : "race-response-new-survey";
+		c2.run      = run_survrace;
+		c2.arg      = (void *) (intptr_t) k;
+		c2.budget[VB_PREEMPT] = vx_is_thorough() ? 2 : 1;
+		c2.budget[VB_SWITCH]  = 2;
+		c2.budget[VB_ENV]     = -1;
+		c2.total              = 2;
+		vx_explore(&c2, NULL);
+	}
 	return vx_finish();
 }
